@@ -31,7 +31,7 @@ func genC20(t *rapid.T) srvCase {
 		out = append(out, op)
 		if op.Op == "send" && op.Kind == "honest" && rapid.IntRange(0, 2).Draw(t, "follow") == 0 {
 			out = append(out, sop{Op: "send", P: op.P, Q: op.Q, Epoch: "current", Reuse: true,
-				Kind: rapid.SampledFrom([]string{"tampered-body", "tampered-sig", "other-signer", "unsigned", "other-context"}).Draw(t, "fkind")})
+				Kind: rapid.SampledFrom([]string{"tampered-body", "tampered-sig", "other-signer", "other-signer-with-key", "unsigned", "other-context"}).Draw(t, "fkind")})
 		}
 	}
 	return srvCase{Ops: out}
@@ -129,6 +129,12 @@ func checkC20(c srvCase) (o vstat.Outcome) {
 					o.V = vstat.Viol("ack-without-delivery", "after %s: peer %d was told message %d was acknowledged, but that message was never delivered to %d", t.history(), s.who, ev.n, s.dst)
 					return
 				}
+				// ... and only if the partner acknowledged that seqno in the then current session epoch: an
+				// acknowledgement stamped with an earlier epoch names a message of that earlier session
+				if !requestedInCurrentEpoch(t, "ack", s.dst, s.who, ev.n, ev.at) {
+					o.V = vstat.Viol("stale-ack-applied", "after %s: peer %d was told message %d was acknowledged, but peer %d only acknowledged that seqno with an earlier session epoch", t.history(), s.who, ev.n, s.dst)
+					return
+				}
 			case "clear":
 				ok := false
 				for i := range t.subs {
@@ -141,10 +147,25 @@ func checkC20(c srvCase) (o vstat.Outcome) {
 					o.V = vstat.Viol("clear-without-delivery", "after %s: peer %d was told message %d was cleared, but it never received that message", t.history(), s.who, ev.n)
 					return
 				}
+				if !requestedInCurrentEpoch(t, "clear", s.dst, s.who, ev.n, ev.at) {
+					o.V = vstat.Viol("stale-clear-applied", "after %s: peer %d was told message %d was cleared, but peer %d only cleared that seqno with an earlier session epoch", t.history(), s.who, ev.n, s.dst)
+					return
+				}
 			}
 		}
 	}
 	return
+}
+
+// requestedInCurrentEpoch: did `from` submit an ack/clear naming n towards `to` before `at`, stamped with the
+// session epoch that was current when it was submitted (epochs only grow, so a stale stamp stays stale)?
+func requestedInCurrentEpoch(t *strace, op string, from, to int, n uint64, at int64) bool {
+	for _, a := range t.acks {
+		if a.op == op && a.from == from && a.to == to && a.n == n && a.at < at && a.epochSent == a.epochCur {
+			return true
+		}
+	}
+	return false
 }
 
 // wasDelivered reports whether sub's message reached a stream of its destination before time at.
